@@ -146,6 +146,25 @@ fn died(cfg: &str, what: &str, case: String, c: &ChildOut) -> Viol {
 // ---------------------------------------------------------------------------------------------
 // (1) all short byte strings
 
+/// Entry points for the longest strings of the thorough sweep: every conversion function once
+/// (the twelve registry-label instantiations share two generic functions: two representatives).
+pub fn entry_points_reduced() -> Vec<(Ty, Entry)> {
+    let mut seen_reg = 0;
+    entry_points()
+        .into_iter()
+        .filter(|(t, _)| match t {
+            Ty::RegLabel(rt) => {
+                let keep = (rt.with_private && rt.reg == crate::refiana::Reg::Algorithm) || (!rt.with_private && rt.reg == crate::refiana::Reg::KeyType);
+                if keep {
+                    seen_reg += 1;
+                }
+                keep
+            }
+            _ => true,
+        })
+        .collect()
+}
+
 pub fn entry_points() -> Vec<(Ty, Entry)> {
     let mut v: Vec<(Ty, Entry)> = all_types().into_iter().map(|t| (t, Entry::Slice)).collect();
     for t in TAGGED_TYPES {
@@ -169,12 +188,14 @@ fn sweep(rep: &Report, cfg: &str, bin: &str, maxlen: usize, l: &mut Local) {
 }
 
 pub fn child_sweep(maxlen: usize, lo: u16, hi: u16) -> i32 {
-    let eps = entry_points();
+    let eps_full = entry_points();
+    let eps_reduced = entry_points_reduced();
     let mut l = Local::default();
     let checks = Checks::NONE;
     let mut visit = |bytes: &[u8], l: &mut Local| {
         l.state(bytes.len() as u64);
-        for (ty, entry) in &eps {
+        let eps = if bytes.len() >= 4 { &eps_reduced } else { &eps_full };
+        for (ty, entry) in eps {
             l.evaluations += 1;
             l.impl_checked += 1;
             match subject_decode(*ty, *entry, bytes) {
@@ -218,7 +239,7 @@ pub fn child_sweep(maxlen: usize, lo: u16, hi: u16) -> i32 {
             }
         }
     }
-    l.sample(|| json!({"space": "c01.sweep", "first_bytes": [lo, hi], "max_len": maxlen, "entry_points": eps.len()}));
+    l.sample(|| json!({"space": "c01.sweep", "first_bytes": [lo, hi], "max_len": maxlen, "entry_points": eps_full.len(), "entry_points_for_len_4": eps_reduced.len()}));
     println!("{}", local_to_json(&l));
     0
 }
